@@ -911,6 +911,10 @@ func init() {
 							}
 						}
 					}
+					switch cl.Name() {
+					case "Count", "Contains", "ContainsRune", "ContainsAny", "HasPrefix", "HasSuffix":
+						continue // these neither locate nor cut: sizing a buffer with Count is not a way of splitting
+					}
 					desc := cl.Name()
 					if cl.Name() == "SplitN" && len(args) == 3 {
 						if k, ok := args[2].(*ssa.Const); ok {
